@@ -330,6 +330,15 @@ BIND_UNUSED_IMPORT = {
     "k.go": 'package main\n\nimport (\n\t"github.com/mazrean/kessoku"\n\t"vscratch/fx_bind_unused_import/api"\n\t"vscratch/fx_bind_unused_import/p"\n\t"vscratch/fx_bind_unused_import/r"\n)\n\nvar _ = kessoku.Inject[api.Svc]("InitSvc", kessoku.Bind[api.Svc](kessoku.Provide(p.NewThing)))\n\ntype Out struct{ A *r.Repo }\n\nfunc NewOut(a *r.Repo, b *r.Repo) *Out { return &Out{A: a} }\n\nvar _ = kessoku.Inject[*Out]("InitOut", kessoku.Async(kessoku.Bind[api.Svc](kessoku.Provide(p.NewThing))), kessoku.Async(kessoku.Provide(r.NewRepo)), kessoku.Provide(NewOut))\n\nfunc main() { println(InitSvc().Get()) }\n',
 }
 
+# provider expressions copied into the generated file carry package qualifiers: with two packages of the same name imported
+# by different files of the package, each qualifier must be rewritten to the name ITS package gets in the generated file
+VALUE_QUALIFIER = {
+    "staging/config/config.go": 'package config\n\nconst Region = "staging-local"\nconst Retries = 3\n',
+    "prod/config/config.go": 'package config\n\nconst Region = "eu-west-1"\nconst Retries = 9\n',
+    "defaults.go": 'package main\n\nimport (\n\t"github.com/mazrean/kessoku"\n\t"vscratch/value_qualifier/prod/config"\n)\n\ntype Region string\n\nvar DefaultsSet = kessoku.Set(kessoku.Value(Region(config.Region)))\n',
+    "k.go": 'package main\n\nimport (\n\t"fmt"\n\n\t"github.com/mazrean/kessoku"\n\t"vscratch/value_qualifier/staging/config"\n)\n\ntype Retries int\ntype App struct{ S string }\n\nfunc NewApp(r Region, n Retries) *App { return &App{S: fmt.Sprintf("%s %d", r, n)} }\n\nvar _ = kessoku.Inject[*App]("InitApp", DefaultsSet, kessoku.Value(Retries(config.Retries)), kessoku.Provide(NewApp))\n\nfunc main() {\n\tif a := InitApp(); a.S != "eu-west-1 3" {\n\t\tpanic("wrong result " + a.S)\n\t}\n}\n',
+}
+
 
 def write_pkg(mod, name, files):
     d = os.path.join(mod, name)
@@ -379,6 +388,7 @@ def _stage(seed, tier, key="N-x"):
         pkgs.append(("ty%d" % i, {"k.go": wrap(body)}, ["k.go"], None, dict(kind="types", types=types)))
     for nm, body in REPAIRED.items():
         pkgs.append(("fx_" + nm, {"k.go": wrap(body)}, ["k.go"], None, dict(kind="reproducer of a repaired type-spelling defect")))
+    pkgs.append(("value_qualifier", VALUE_QUALIFIER, ["k.go"], None, dict(kind="package qualifiers of copied provider expressions (two packages of one name, two files)", run=True)))
     pkgs.append(("fx_bind_unused_import", BIND_UNUSED_IMPORT, ["k.go"], None, dict(kind="reproducer of a repaired defect (imports of types that are not written)")))
     pkgs.append(("fx_unimported_clash", UNIMPORTED_CLASH, ["k.go"], None, dict(kind="reproducer of a repaired type-spelling defect (package name of an unimported package)")))
     big = NAMING["suffix_types"]
